@@ -280,9 +280,32 @@ def r11_5(ctx):
     ctx.end()
 
 
+def r11_6(ctx):
+    """The rule the user selects for a task must be the rule the allocator later hands to the sort functions: the constructor
+    (and the JSON reader, C16) must store every member of the rule enums unchanged -- including the member whose value is 0."""
+    ctx.begin("R11.6", "BaseTask.__init__ stores every selectable priority rule unchanged", floor=9)
+    f = ctx.repo.method(TASK, "__init__")
+    for param, enum in (("worker_priority_rule", "ResourcePriorityRuleMode"), ("facility_priority_rule", "ResourcePriorityRuleMode"),
+                        ("workplace_priority_rule", "WorkplacePriorityRuleMode")):
+        ctx.require(param in f.params, f"BaseTask.__init__ has no parameter {param}")
+        for m in ctx.repo.enums[enum]:
+            I = mk_interp(ctx)
+            outs = I.run_function(f, bind={param: E(enum, m), "name": Const("t"), "__defaults__": True})
+            ctx.instance(construct(f, f"{param}={m}"), cells=len(outs))
+            for st, ex in outs:
+                if ex is not None and ex[0] == "raise":
+                    continue
+                v = st.heap.get(("self", param))
+                if not (isinstance(v, EnumSet) and v.single() == m):
+                    ctx.violation(construct(f, f"rule-not-stored:{param}"), f.loc(),
+                                  f"BaseTask({param}={enum}.{m}) stores {v!r} as the task's {param}: the rule the user selected is replaced, so candidates are ordered by a different key")
+    ctx.end()
+
+
 def run(ctx):
     r11_1(ctx)
     r11_2(ctx)
     r11_3(ctx)
     r11_4(ctx)
     r11_5(ctx)
+    r11_6(ctx)
